@@ -5,6 +5,8 @@ use crate::{report::Report, worker::{CaseDesc, CaseOut}, Args};
 pub mod c01;
 pub mod c02;
 pub mod c03;
+pub mod c04;
+pub mod c05;
 pub mod c06;
 pub mod cer;
 pub mod c10;
@@ -14,6 +16,8 @@ pub fn dispatch(args: &Args) -> Option<Report> {
         "c01" => c01::run(args),
         "c02" => c02::run(args),
         "c03" => c03::run(args),
+        "c04" => c04::run(args),
+        "c05" => c05::run(args),
         "c06" => c06::run(args),
         "c10" => c10::run(args),
         _ => return None,
